@@ -69,3 +69,18 @@ def basic_tokens(rg, text, gflags=0):
 
 def named_types(rg):
     return {T.name for T in rg.terms.values() if T.named}
+
+
+def lark_names(rg, l):
+    """tid -> lark terminal name (named: its name; anonymous: the terminal lark created for that pattern)"""
+    out = {}
+    for tid, T in rg.terms.items():
+        if T.named:
+            out[tid] = T.name
+            continue
+        for td in l.terminals:
+            p = td.pattern
+            if p.value == T.pat[1] and (type(p).__name__ == 'PatternStr') == (T.pat[0] == 's') and ''.join(sorted(p.flags)) == ''.join(sorted(T.pat[2])):
+                out[tid] = td.name
+                break
+    return out
